@@ -15,6 +15,7 @@ package openapiv3
 //@ func (*schemafier).schemafy
 //@   params sf attr noref
 //@   property C14
+//@   locals s:*openapi.Schema note:string t:expr.Primitive bases:[]expr.DataType b:expr.DataType val:*openapi.Schema t#2:*expr.Array t#3:*expr.Object itemNotes:[]string nat:*expr.NamedAttributeExpr t#4:*expr.Map t#5:*expr.Union val#2:*expr.NamedAttributeExpr t#6:expr.UserType t#7:expr.DataType h:uint64 metaName:string n:[]string ok:bool metaRef:string refs:[]string ok#2:bool name:string ref:string typeName:string n#2:[]string ok#3:bool val#3:*expr.ValidationExpr ok#4:bool ok#5:bool v:string a:*expr.AttributeExpr
 //@   requires sf != nil
 //   -- the helpers called before the tail (examples, extensions, hashing, naming) do not modify the attribute being documented
 //@   unknown_calls_preserve fieldsOf(expr.AttributeExpr), fieldsOf(expr.ValidationExpr)
@@ -29,11 +30,10 @@ package openapiv3
 //@   ensures* length.map.applicable: !early && val != nil && isMap ==> result.MinLength == nil && result.MaxLength == nil
 //   -- the required list: each required name of the design is appended, in order, unless it names an attribute
 //   -- excluded from generation (Find ASSUMED to be a function of the attribute and the name; its frame is proved in expr)
-//@   locals s
 //@   callspec (*AttributeExpr).Find params a name
 //@       ensures result == ptr(*expr.AttributeExpr, findSpec(a, name)) && result <= alloc() && result >= 0
 //@       modifies nothing
-//@   let cur = ranged(5)[rangeindex#5]
+//@   let cur = ranged(5)[rangeidx(5)]
 //@   let found = ptr(*expr.AttributeExpr, findSpec(attr, cur))
 //@   let excluded = found != nil && !prev(5, mustGen(now(found.Meta)))
 //@   loop 5 invariant* all.required.visited: val != nil && ranged(5) == val.Required && s != nil
@@ -79,7 +79,7 @@ package openapiv3
 //@   ensures* path.parameter: forall i int :: 0 <= i && i < len(wildcards) && wildcards[i] == n ==> last.In == "path" && last.Required
 //@   ensures* query.parameter: (forall i int :: 0 <= i && i < len(wildcards) ==> wildcards[i] != n) ==> last.In == "query" && last.Required == required
 //@   ensures kept: forall k int :: 0 <= k && k < len(res) ==> out[k] == old(res[k])
-//@   loop 1 invariant scan: in == "query" && required == old(required) && (forall j int :: 0 <= j && j <= rangeindex ==> wildcards[j] != n)
+//@   loop 1 invariant scan: in == "query" && required == old(required) && (forall j int :: 0 <= j && j <= rangeidx(1) ==> wildcards[j] != n)
 //@ func paramsFromHeadersAndCookies$1
 //@   params name elem att
 //@   captures endpoint:*expr.HTTPEndpointExpr params:[]*openapiv3.Parameter rand:*expr.ExampleGenerator
